@@ -138,7 +138,7 @@ def prove(pid, cfg, tier):
     res = dict(obligations=[], discharged=[], broken=[], build_log="", axioms={})
     theorems = cfg["theorems"]
     res["obligations"] = list(theorems)
-    with Lock("lake"):
+    with Lock("lake_" + pid):
         t0 = time.time()
         rc, out = run(["lake", "build"] + cfg["modules"] + ["driver_" + pid.lower()], cwd=LEAN, timeout=3600)
         res["build_s"] = round(time.time() - t0, 1)
